@@ -398,8 +398,9 @@ def r6_json(ctx, prog):
     esc = M.call_blocks(b, r"leptos_i18n_build::write_json_str$")
     if dbg:
         r.viol("R6:TranslationsFormatter::fmt#debug", "strings are written with Debug formatting (%s): not valid JSON for non-ASCII / control characters" % dbg[0][:80], file=b.file, line=b.line)
-    if len(esc) >= 2:
-        r.inst("TranslationsFormatter::fmt", "%d calls to write_json_str (first element, then each following one), no Debug formatting" % len(esc))
+    in_loop = [e for e in esc if M.loop_of(b, e)]
+    if len(esc) >= 2 or (len(esc) == 1 and in_loop):
+        r.inst("TranslationsFormatter::fmt", "%d call site(s) of write_json_str covering every element, no Debug formatting" % len(esc))
     else:
         r.viol("R6:TranslationsFormatter::fmt#escaper", "strings are not all written through the JSON escaper", file=b.file, line=b.line)
     # display calls on Rc<str> directly would bypass the escaper too
@@ -411,31 +412,18 @@ def r6_json(ctx, prog):
     if fn is None:
         r.missing("write_json_str")
         return r
-    m = find_first(fn.body, "Match")
-    arms = {}
-    for a in (m or {"arms": []})["arms"]:
-        arms[flat(show_pat(a["pat"])) + ("if" + flat(show(a["guard"])) if a.get("guard") else "")] = flat(show(a["body"]))
-    need = {"'\"'": 'f.write_str("\\\\\\"")?', "'\\\\'": 'f.write_str("\\\\\\\\")?'}
-    for k, w in need.items():
-        if arms.get(k) != w:
-            r.viol("R6:write_json_str#%s" % k, "character %s is not escaped as %s (arm: %s)" % (k, w, arms.get(k)), file=fn.file, line=fn.line)
-        else:
-            r.inst("write_json_str %s" % k, w)
-    ctl = [k for k in arms if re.search(r"if\(\(\w+asu32\)<0x20\)|if\(\w+asu32\)<0x20|if\w+\.is_control\(\)", k)]
-    if ctl and "\\\\u{:04x}" in arms[ctl[0]]:
-        r.inst("write_json_str control characters", "c < 0x20 -> \\u00XX")
-    else:
-        r.viol("R6:write_json_str#control", "control characters below U+0020 are not all escaped as \\uXXXX", file=fn.file, line=fn.line)
-    other = [k for k in arms if re.match(r"^\w+$", k)]
-    if other and re.match(r"^f\.write_char\(\w+\)\?$", arms[other[0]]):
-        r.inst("write_json_str other characters", "written unchanged (allowed by JSON)")
-    else:
-        r.viol("R6:write_json_str#other", "remaining characters are not written unchanged", file=fn.file, line=fn.line)
-    t = flatp(show(fn.body))
-    if not (t.startswith("{f.write_char'\"'?;forcins.chars{") and t.endswith("f.write_char'\"'}")):
-        r.viol("R6:write_json_str#quotes", "the escaped string is not wrapped in double quotes / not all characters are visited", file=fn.file, line=fn.line)
-    else:
+    # the escaper is checked against the JSON string grammar for every class of characters its code can distinguish
+    # (finite case analysis over the literals and thresholds it mentions; see rules/dtable.py)
+    from rules import dtable
+    params = fn.params()
+    ok, problems, facts_ = dtable.escaper_spec(fn.body, params[1] if len(params) > 1 else "s", "json")
+    if ok:
+        r.inst("write_json_str", "for each of %d character classes the text written decodes (as JSON) to exactly that character; framed by double quotes" % facts_["classes"])
+        r.inst("write_json_str control characters", "U+0000..U+001F are escaped")
         r.inst("write_json_str framing", "\" ... \" around every char of the string, in order")
+    else:
+        for pb in problems[:6]:
+            r.viol("R6:write_json_str#" + pb.split(" ")[0], pb, file=fn.file, line=fn.line)
     return r
 
 
